@@ -483,7 +483,7 @@ pub fn check_main(args: &[String]) -> i32 {
 
     // ---- Miri engine beside the native sessions
     let miri_handle = if with_miri {
-        let (sim_dir, target) = (vdir.join("sim"), vdir.join("target").join("miri"));
+        let (sim_dir, target) = (PathBuf::from(arg_val(args, "--sim-dir").unwrap_or_else(|| vdir.join("sim").to_string_lossy().into_owned())), vdir.join("target").join("miri"));
         let prop2 = prop.clone();
         Some(std::thread::spawn(move || run_miri(&sim_dir, &target, prof, &prop2, seed, miri_workloads, miri_seeds)))
     } else {
